@@ -6,7 +6,7 @@ use std::sync::Mutex;
 
 use serde_json::{Value, json};
 
-use crate::common::{Rng, mk_rng};
+use crate::common::{SRng, mk_rng};
 
 #[derive(Clone, Copy, Debug, PartialEq, Eq)]
 pub enum Tier {
@@ -63,12 +63,12 @@ impl Ctx {
     }
 
     /// RNG private to this shard and a tag.
-    pub fn rng(&self, tag: &str) -> Rng {
+    pub fn rng(&self, tag: &str) -> SRng {
         mk_rng(self.seed.wrapping_mul(1_000_003).wrapping_add(self.shard as u64), &format!("{}:{}", self.prop, tag))
     }
 
     /// RNG shared by all shards (same configuration everywhere).
-    pub fn rng_global(&self, tag: &str) -> Rng {
+    pub fn rng_global(&self, tag: &str) -> SRng {
         mk_rng(self.seed, &format!("{}:g:{}", self.prop, tag))
     }
 
